@@ -7,6 +7,7 @@ Definition c05_wit_deser := witness_deser.
 Definition c05_outpoint := outpoint.
 Definition c05_txin := txin.
 Definition c05_txout := txout.
+Definition c05_txin_default := fun o s => txin o s default_sequence.   (* txin(o, s) with the default argument *)
 Definition c05_tx_raw := tx_raw.
 Definition c05_tx_ser := tx_ser.
 Definition c05_txin_deser := txin_deser.
